@@ -1,5 +1,7 @@
 (** C13 — Parameter expansion follows the POSIX operator table for every parameter state. *)
-From GoSh Require Import Base.Bytes Base.Outcome Store.Env Expand.Expand Expand.Spec Expand.ParamProofs.
+From GoSh Require Import Base.Bytes Base.Outcome Store.Env Expand.Expand Expand.Spec Expand.ParamProofs Expand.ParamMore.
+From GoSh Require Import Pattern.Regex Pattern.PCompile Pattern.Match Pattern.MatchProofs.
+From GoShGen Require Import Extracted.
 
 (** For every environment, parameter name other than @ and *, operator of the table
     (:- - := = :? ? :+ +), operator word, expansion mode and field context: the model of
@@ -27,5 +29,77 @@ Theorem C13_unused_word_irrelevant :
 Proof. exact unused_word_irrelevant. Qed.
 Print Assumptions C13_unused_word_irrelevant.
 
-(** Not yet proved (correspondence and the table oracle only): the $@ / $* field rules, ${#p},
-    the four pattern-removal operators (they reduce to C12's theorems through match_model), nounset. *)
+(** ${p} and $p outside arithmetic: the value; nothing for a null value; for an unset parameter
+    nothing, or a ParamExpError under nounset. *)
+Theorem C13_plain_parameter :
+  forall users fuel e fs name word mode,
+    beqb name s_at = false -> beqb name s_star = false -> mbit mode mArith = false ->
+    expand_param users (S fuel) e fs name [] word mode =
+    match pstate_of e name with
+    | PVal v => Ok (e, join_last fs v (mbit mode mQuote))
+    | PNull => Ok (e, fs)
+    | PUnset => if opt_bit e Extracted.opt_NoUnset then Err (e, XParam name msg_unset) else Ok (e, fs)
+    end.
+Proof. exact param_plain. Qed.
+Print Assumptions C13_plain_parameter.
+
+(** ${#p} counts characters (runes, not bytes); 0 for a null or unset parameter, an error for an
+    unset one under nounset. *)
+Theorem C13_length :
+  forall users fuel e fs name mode,
+    beqb name s_at = false -> beqb name s_star = false ->
+    expand_param users (S fuel) e fs name [35%N] None mode =
+    match pstate_of e name with
+    | PVal v => Ok (e, join_last fs (itoa (Z.of_nat (rune_count v))) (mbit mode mQuote))
+    | PNull => Ok (e, join_last fs (itoa 0) (mbit mode mQuote))
+    | PUnset => if opt_bit e Extracted.opt_NoUnset then Err (e, XParam name msg_unset)
+                else Ok (e, join_last fs (itoa 0) (mbit mode mQuote))
+    end.
+Proof. exact param_length. Qed.
+Print Assumptions C13_length.
+
+(** $@ produces one field per positional parameter (the first continues the current field), quoted
+    according to the context; $* does the same unquoted and, inside double quotes, gives the
+    parameters joined by the first character of IFS as one field. *)
+Theorem C13_at_fields :
+  forall users fuel e fs word mode,
+    expand_param users (S fuel) e fs s_at [] word mode =
+    match tl (args e) with
+    | [] => Ok (e, fs)
+    | [x] => if beqb x [] then Ok (e, fs) else Ok (e, param_fields fs [x] (mbit mode mQuote))
+    | pos => Ok (e, param_fields fs pos (mbit mode mQuote))
+    end.
+Proof. exact at_fields. Qed.
+Print Assumptions C13_at_fields.
+
+Theorem C13_star_fields :
+  forall users fuel e fs word mode,
+    expand_param users (S fuel) e fs s_star [] word mode =
+    match tl (args e) with
+    | [] => Ok (e, fs)
+    | [x] => if beqb x [] then Ok (e, fs) else Ok (e, param_fields fs [x] (mbit mode mQuote))
+    | pos => if mbit mode mQuote then Ok (e, join_last fs (join_with (ifs_sep e) pos) true)
+             else Ok (e, param_fields fs pos false)
+    end.
+Proof. exact star_fields. Qed.
+Print Assumptions C13_star_fields.
+
+(** ${p%w} ${p%%w} ${p#w} ${p##w} on a set, non-null parameter: the word is expanded in Pattern
+    mode; the result is the value without the shortest / longest suffix / prefix that the compiled
+    pattern matches as a whole -- C12's denotation [extreme] -- and the whole value when no such
+    affix exists. *)
+Theorem C13_pattern_removal :
+  forall users fuel e fs name op w mode v e1 wf items,
+    beqb name s_at = false -> beqb name s_star = false -> In op remove_ops ->
+    pstate_of e name = PVal v ->
+    expand users fuel e w mPattern = Ok (e1, wf) ->
+    compile_model [fpattern (join_all e1 wf)] (op_pmode op) = COk [items] ->
+    exists r,
+      extreme (if op_suffix op then is_suffix else is_prefix) (op_longest op) (map fst items) (syms_of v) r /\
+      expand_param users (S fuel) e fs name op (Some w) mode = Ok (e1, join_last fs (removed op v r) (mbit mode mQuote)).
+Proof. exact param_remove. Qed.
+Print Assumptions C13_pattern_removal.
+
+(** Not proved: the operators of the table applied to $@ and $* themselves and the pattern-removal
+    operators on them (one removal per positional parameter); decided by the correspondence with
+    the implementation and the table oracle.  F18 ("$@" with no parameters) is a known finding. *)
